@@ -14,7 +14,7 @@ pub struct Waker { pub id: int }
 /// which counter a flush / close polls
 pub enum Pending { OwnPendingItemsCount, Other }
 pub enum Call { Flush(Duration, Pending), IsAnyStreamRunning, EndStream(u32, Duration, Pending), EndAllStreams(Duration, Pending), CancelAllStreams, RunningStreamsCount,
-                KeepStreamRunning(u32), RegisterStreamWaker(u32, int), ReportStreamDropped(u32) }
+                KeepStreamRunning(u32), RegisterStreamWaker(u32, int), ReportStreamDropped(u32), CreateStreamId }
 /// the channel's StreamsManagerBase as a logging shim with arbitrary answers (its own contracts: units streams_manager / streams_bookkeeping)
 pub struct StreamsManager { pub log: Ghost<Seq<Call>>, pub last_u32: Ghost<u32>, pub last_bool: Ghost<bool> }
 impl StreamsManager {
@@ -37,6 +37,13 @@ impl StreamsManager {
     #[verifier::external_body] pub fn report_stream_dropped(&mut self, stream_id: u32)
         ensures final(self).log@ == old(self).log@.push(Call::ReportStreamDropped(stream_id)) { }
 }
+impl StreamsManager {
+    #[verifier::external_body] pub fn create_stream_id(&mut self) -> (r: u32)
+        ensures final(self).log@ == old(self).log@.push(Call::CreateStreamId), final(self).last_u32@ == r { unimplemented!() }
+}
+/// MutinyStream::new(stream_id, events_source): the stream remembers the id it polls / gives back under
+pub struct MutinyStream { pub stream_id: u32 }
+impl MutinyStream { pub fn new(stream_id: u32, events_source: &Channel) -> (r: Self) ensures r.stream_id == stream_id { MutinyStream { stream_id } } }
 pub struct Channel { pub streams_manager: StreamsManager }
 """
 CONTAINER = "impl Channel"
@@ -100,7 +107,7 @@ TABLE = [
 ]
 
 
-def unit_for(tag, file, struct, drop_resources_only_reports=True):
+def unit_for(tag, file, struct, drop_resources_only_reports=True, create=None):
     impl_common = r"ChannelCommon\s*<[^{]*?>\s*for\s+%s\s*<[^{]*(?=\{)" % struct
     impl_consumer = r"ChannelConsumer\s*<[^{]*?>\s*for\s+%s\s*<[^{]*(?=\{)" % struct
     fns = []
@@ -115,21 +122,30 @@ def unit_for(tag, file, struct, drop_resources_only_reports=True):
                    ensures=log1("Call::ReportStreamDropped(stream_id)"))
         f.container = CONTAINER
         fns.append(f)
+    if create:
+        impl_create = r"Channel(?:Uni|Multi)\s*<[^{]*?>\s*for\s+%s\s*<[^{]*(?=\{)" % struct
+        # C10: one id is taken from the manager, the stream polls under THAT id and the same id is reported to the caller (who ends / cancels the stream by it)
+        f = FnSpec(file, create, impl=impl_create, props=["C10", "C07"],
+                   sig="pub fn %s(&mut self) -> (r: (MutinyStream, u32))" % create, sig_anchor=r"fn %s\(self: &Arc<Self>\)" % create,
+                   rules=[Rule("R5-self-arg", r"MutinyStream::new\(stream_id, self\)", "MutinyStream::new(stream_id, &*self)", count=1, note="&Arc<Self> -> &Self")],
+                   ensures=log1("Call::CreateStreamId") + ", r.1 == final(self).streams_manager.last_u32@, r.0.stream_id == r.1")
+        f.container = CONTAINER
+        fns.append(f)
     return Unit("common_" + tag, fns, spec=SPEC,
                 trusted=["StreamsManager::*: the channel's StreamsManagerBase as a logging shim with arbitrary answers (its own contracts: units streams_manager / streams_bookkeeping, Kani streams_manager)"],
                 assumptions=["de-asynced (R10); Duration / Waker are opaque values handed through"])
 
 
 UNITS = [
-    unit_for("uni_movable_atomic", "src/uni/channels/movable/atomic.rs", "Atomic"),
-    unit_for("uni_movable_full_sync", "src/uni/channels/movable/full_sync.rs", "FullSync"),
-    unit_for("uni_movable_crossbeam", "src/uni/channels/movable/crossbeam.rs", "Crossbeam"),
-    unit_for("uni_zero_copy_atomic", "src/uni/channels/zero_copy/atomic.rs", "Atomic"),
-    unit_for("uni_zero_copy_full_sync", "src/uni/channels/zero_copy/full_sync.rs", "FullSync"),
-    unit_for("multi_arc_atomic", "src/multi/channels/arc/atomic.rs", "Atomic"),
-    unit_for("multi_arc_full_sync", "src/multi/channels/arc/full_sync.rs", "FullSync"),
-    unit_for("multi_arc_crossbeam", "src/multi/channels/arc/crossbeam.rs", "Crossbeam"),
-    unit_for("multi_ogre_arc_atomic", "src/multi/channels/ogre_arc/atomic.rs", "Atomic"),
-    unit_for("multi_ogre_arc_full_sync", "src/multi/channels/ogre_arc/full_sync.rs", "FullSync"),
+    unit_for("uni_movable_atomic", "src/uni/channels/movable/atomic.rs", "Atomic", create="create_stream"),
+    unit_for("uni_movable_full_sync", "src/uni/channels/movable/full_sync.rs", "FullSync", create="create_stream"),
+    unit_for("uni_movable_crossbeam", "src/uni/channels/movable/crossbeam.rs", "Crossbeam", create="create_stream"),
+    unit_for("uni_zero_copy_atomic", "src/uni/channels/zero_copy/atomic.rs", "Atomic", create="create_stream"),
+    unit_for("uni_zero_copy_full_sync", "src/uni/channels/zero_copy/full_sync.rs", "FullSync", create="create_stream"),
+    unit_for("multi_arc_atomic", "src/multi/channels/arc/atomic.rs", "Atomic", create="create_stream_for_new_events"),
+    unit_for("multi_arc_full_sync", "src/multi/channels/arc/full_sync.rs", "FullSync", create="create_stream_for_new_events"),
+    unit_for("multi_arc_crossbeam", "src/multi/channels/arc/crossbeam.rs", "Crossbeam", create="create_stream_for_new_events"),
+    unit_for("multi_ogre_arc_atomic", "src/multi/channels/ogre_arc/atomic.rs", "Atomic", create="create_stream_for_new_events"),
+    unit_for("multi_ogre_arc_full_sync", "src/multi/channels/ogre_arc/full_sync.rs", "FullSync", create="create_stream_for_new_events"),
     unit_for("multi_mmap_log", "src/multi/channels/reference/mmap_log.rs", "MmapLog"),
 ]
